@@ -39,7 +39,8 @@ def apply_edits(ix, edits):
                 cur = ix.read(relpath)
             except AnalysisError:
                 return None
-        if cur.count(old) != (e[3] if len(e) > 3 else 1):
+        want = e[3] if len(e) > 3 else 1
+        if (want == 0 and cur.count(old) < 1) or (want != 0 and cur.count(old) != want):
             return None
         overlay[relpath] = cur.replace(old, new)
     for p, text in overlay.items():
